@@ -70,6 +70,8 @@ RegexRule(h, text) ==
       [] h.rx = "any"       -> TRUE
       [] h.rx = "alt"       -> Contains(text, h.lit) \/ Contains(text, h.lit2)
       [] h.rx = "icontains" -> Contains(LowerSeq(text), LowerSeq(h.lit))
+      [] h.rx = "backref"   -> Contains(text, <<97, 97>>) \/ Contains(text, <<98, 98>>)       \* ([ab])\1
+      [] h.rx = "group"     -> h.lit # <<>> /\ (EndsWith(text, h.lit) \/ EndsWith(text, h.lit \o <<10>>))   \* (lit)+$
 
 FilterRule(h, m) ==
     CASE h.mode = "const"   -> h.arg
